@@ -63,11 +63,12 @@ def run(ctx):
             ctx.violation("hal generator picked a digit width outside the documented magnitude domain", {"cases": domain["outside"][:10]}, False)
         ctx.assumptions[:] = [a for a in ctx.assumptions if not a.startswith("FFT64 rounding error")] + [
             "FFT64: rounding error < 1/2 inside the documented magnitude domain is tied by correspondence only (IEEE-754 code, not proved)",
-            "NTT120: proved end to end at HAL level for the reference kernels (transforms, prepare, bbc products, lazy add/sub/negate, "
-            "idft + CRT, cnv / vmp / dft_apply against the exact-integer specification); NTT120Avx: every lane kernel proved equal to the "
-            "reference on every reachable state, except pairwise_pack_left_1blk_x2_avx2 (C10 proves it for x < Q·2^33 only) and the "
-            "`u64`-ness of the table entries (`fitsTable`), which stay tied by correspondence; the x2-block index maps of the AVX2 "
-            "loops are tied by correspondence",
+            "NTT120: the lane compositions of Model/Ntt120Hal.lean (transforms, prepare, bbc products, lazy add/sub/negate, idft + CRT; "
+            "cnv / vmp / dft_apply / arbitrary compositions) are proved equal to the exact-integer HAL specification; that the Rust HAL "
+            "functions of NTT120Ref and NTT120Avx store exactly these lanes (x2-block / column index maps, loop structure) is tied by the "
+            "raw-word correspondence (pvh hal … ; raw D), not proved",
+            "NTT120Avx: every lane kernel is proved equal to the reference lane on every operand that can occur (C10 lane models + the range "
+            "lemmas of C07); the BitVec models of the intrinsic sequences themselves and the SAT-backed lemmas they rest on belong to C10",
         ]
         return finish(level=level, rule=(rule + " || " + ntt120gen.RULE) if rule else ntt120gen.RULE, extra=extra)
 
